@@ -9,6 +9,7 @@ Cases are operation groups in pytezos' own JSON shape (real base58 strings).  Fo
   oracle 2  an independent canonical *reader* applied to the REAL bytes must return the (normalised) input group
   oracle 3  two different normalised groups never forge to the same bytes
   model 2   Spec.Op.decodeGroup (Lean) applied to the real bytes must return the same group as oracle 2
+  model 3   Spec.Op.writeGroup (Lean canonical writer) must produce the same bytes as oracle 1's writer
 
 base58 is not part of this property (C09/C10): strings are converted to (prefix, payload) with the `base58` package
 and the Tezos prefix table written out below."""
@@ -720,6 +721,9 @@ def run(ctx):
         lines.append('forge ' + group_line(g))
         lines.append('decode ' + (got if got != 'err' else '00'))
     model = ctx.model(lines)
+    # Lean canonical writer (Spec.Op.writeGroup, Tezos tables only) vs the independent Python writer
+    n_canon = len(groups) if ctx.tier == 'quick' else min(len(groups), 20000)
+    canon = ctx.model(['canon ' + group_line(norm_group(g), present=lambda c, name: name in c) for g in groups[:n_canon]]) if model is not None else None
     seen = {}
     n_bad = 0
     for i, g in enumerate(groups):
@@ -777,6 +781,8 @@ def run(ctx):
             except Reject:
                 want = None
             lean = None if model[2 * i + 1] in ('err', 'bad-op') else parse_group_line(model[2 * i + 1])
+            if canon is not None and i < n_canon and canon[i] != spec_encode(ng, prim_tags).hex():
+                ctx.mismatch('spec-writer', {'kinds': kinds}, spec_encode(ng, prim_tags).hex()[:300], canon[i][:300])
             if got != 'err' and lean != want:
                 ctx.mismatch('spec-decode', {'bytes': got[:300]}, json.dumps(want)[:300], json.dumps(lean)[:300])
     ctx.extra['non_canonical_groups'] = n_bad
